@@ -111,7 +111,7 @@ var registry = map[string]check{
 	},
 	"C04": {
 		parts: []part{{"compiled", layerc.C04, 16, 160}}, replay: layerc.Replay, level: "exploration", components: compC,
-		rule:        "cases = (generator from the range profile: range over slice/array/string incl. multi-byte and invalid UTF-8/map/closed channel/int incl. <= 0/typed small integer x forms k,v := | k := | _,v := | none | k,v = x yielding and non-yielding bodies, break/continue, nesting, ranges inside closures x mutation of the ranged collection in the body: element writes, append, reslice, map delete/overwrite; range expression with an effect) x argument vectors x drain; oracle: full history equality with the reference, which executes Go's own range. Multi-entry maps only with order-insensitive (commutative) bodies." + ruleC,
+		rule:        "cases = (generator from the range profile: range over slice/array/string incl. multi-byte and invalid UTF-8/map/closed channel/int incl. <= 0/typed small integer x forms k,v := | k := | _,v := | none | k,v = x yielding and non-yielding bodies, break/continue, nesting, ranges inside closures x mutation of the ranged collection in the body: element writes, append, reslice, map delete/overwrite; range expression with an effect; array operands that are not addressable (call, composite literal, field of a call result); '=' forms onto typed variables and with a value operand indexed by the key; integer limits at the boundaries of their types; closures and nested generators capturing the variable of an integer range beyond its iteration; non-yielding loops with continue/break inside a switch) x argument vectors x drain; oracle: full history equality with the reference, which executes Go's own range. Multi-entry maps only with order-insensitive (commutative) bodies." + ruleC,
 		assumptions: []string{"known finding A6 (array operand is not copied) is quarantined: no write to a ranged array when the value variable is present"},
 	},
 	"C05": {
@@ -121,7 +121,7 @@ var registry = map[string]check{
 	},
 	"C06": {
 		parts: []part{{"compiled", layerc.C06, 16, 160}}, replay: layerc.Replay, level: "exploration", components: compC,
-		rule:        "cases = plain (non-generator) functions of a processed file consuming generators with for v := range / for v = range / pull loops, break/continue/return in the body, re-declaration of the loop variable, nested consumer loops, plus hand-written declarations that put the iterator type in results, parameters, struct fields, map values, slices, closures, type arguments, generic and method generators and mix pull and range on one iterator value; x argument vectors; the observation is the two-sided history (generator-side effects count the pulls). Oracle: history equality with the reference (Go's range-over-func on refco)." + ruleC,
+		rule:        "cases = plain (non-generator) functions of a processed file consuming generators with for v := range / for v = range / pull loops, break/continue/return in the body, re-declaration of the loop variable, nested consumer loops, plus hand-written declarations that put the iterator type in results, parameters, struct fields, map values, slices, closures, type arguments, generic and method generators and mix pull and range on one iterator value; '=' loops onto index / field / pointer operands; a loop variable captured and then re-declared by a mixed ':='; a generator ranging over a package-level iterator variable that a plain file re-assigns between two pulls; x argument vectors; the observation is the two-sided history (generator-side effects count the pulls). Oracle: history equality with the reference (Go's range-over-func on refco)." + ruleC,
 		assumptions: []string{},
 	},
 	"C07": {
@@ -131,7 +131,7 @@ var registry = map[string]check{
 	},
 	"C12": {
 		parts: []part{{"compiled", layerc.C12, 16, 128}}, replay: layerc.Replay, level: "exploration", components: compC,
-		rule:        "cases = a supported program with ONE unsupported construct (goto, labelled break/continue, select, defer, fallthrough out of a yielding case, range over func / pointer-to-array, yield in an if/switch initialiser, go Yield, wrong result signature) spliced in at a drawn statement position of a generator body; one case in four is a negative control (the construct inside an immediately called plain closure, where it must be accepted). Each program is its own package. Oracle: compilation fails with a diagnostic, OR the output builds and its histories equal the reference's (schedules as C02); programs without source-level meaning (go Yield, wrong signature) must be rejected; controls must be accepted and equal. The fault space is syntactic (injected into the workload), said plainly. Every case is non-trivial; distinct = digest of (construct, control flag, program text).",
+		rule:        "cases = a supported program with ONE unsupported construct (goto, labelled break/continue, select, defer, fallthrough out of a yielding case, range over func / pointer-to-array, yield in an if/else-if/switch initialiser also of chains with a yielding branch and nested in native ranges, go Yield, Yield as a value, wrong result signature, the statements above inside plain loops and inside ranges that stay native, index-only ranges over a nil pointer to an array, unlabelled break/continue in native ranges that do not yield) spliced in at a drawn statement position of a generator body; one case in four is a negative control (the construct inside an immediately called plain closure, where it must be accepted). Each program is its own package. Oracle: compilation fails with a diagnostic, OR the output builds and its histories equal the reference's (schedules as C02); programs without source-level meaning (go Yield, wrong signature) must be rejected; controls must be accepted and equal. The fault space is syntactic (injected into the workload), said plainly. Every case is non-trivial; distinct = digest of (construct, control flag, program text).",
 		assumptions: []string{"the listed constructs are the property's list; a function value of Yield is not on it and is not generated"},
 	},
 	"C13": {
@@ -141,12 +141,12 @@ var registry = map[string]check{
 	},
 	"C15": {
 		parts: []part{{"disk", layerd.C15, 16, 48}}, replay: layerd.Replay, level: "fault_enumeration", components: compD,
-		rule:        "cases = a source set S (generated, range-heavy so iterator temporaries are numbered) x tool-run histories: 3 fresh processes; same destination again; unrelated API-using files in the same package sorting before and after S's files; S in a sub-package among other packages; destination holding outputs of other sources; restart after a run killed at EVERY file-write point of both stages (thorough; a seeded subset of 6 in quick), with and without a torn next file; stale temporary directory of a run over other sources with the same file names; WithLoadTest option drawn per case. Oracle: every generated file of S is byte-identical to the clean run's, no <dst>_tmp is left, no generated helper identifier is defined twice in a file. Every case is non-trivial; distinct = (source digest, configuration).",
+		rule:        "cases = a source set S (generated, range-heavy so iterator temporaries are numbered) x tool-run histories: 3 fresh processes; same destination again; unrelated API-using files in the same package sorting before and after S's files; S in a sub-package among other packages; destination holding outputs of other sources; restart after a run killed at EVERY file-write point of both stages (thorough; a seeded subset of 6 in quick), with and without a torn next file; stale temporary directory of a run over other sources with the same file names; WithLoadTest option drawn per case; unrelated test files (in-package and external) next to S with test packages loaded; the file with the optimiser's side-condition shapes is the first file of S. Oracle: every generated file of S is byte-identical to the clean run's, no <dst>_tmp is left, no generated helper identifier is defined twice in a file. Every case is non-trivial; distinct = (source digest, configuration).",
 		assumptions: []string{"crash states are constructed from the stage outputs of a clean run in the order the tool writes files; the tool has no storage seam (DESIGN.md 2.6)"},
 	},
 	"C16": {
 		parts: []part{{"disk", layerd.C16, 48, 192}}, replay: layerd.Replay, level: "fault_enumeration", components: compD,
-		rule:        "cases = generated package layouts (several *_co.go files whose helpers and types live in a plain sibling file, so the optimise stage reloads a partial package; *_co_test.go; co-named files importing but not using / not importing the API; API-using file without the suffix; sub-package) x variant (clean / stale sibling <dir>_tmp of a killed run / stale outputs of an older source version / a first run that the tool rejects half-way, after which the offending file is removed and a processed co file renamed). History: snapshot, cogen, snapshot, go build, go build -tags co, go test, cogen, snapshot. Oracle: created paths are exactly the _co-stripped names of API-using co files, each starts with the '!co' constraint and the generated-code header, nothing else created/modified/left (no <dir>_tmp), builds and tests pass, second run byte-identical.",
+		rule:        "cases = generated package layouts (several *_co.go files whose helpers and types live in a plain sibling file, so the optimise stage reloads a partial package; *_co_test.go; co-named files importing but not using / not importing the API; API-using file without the suffix; sub-package) x variant (clean / stale sibling <dir>_tmp of a killed run / stale outputs of an older source version / a first run that the tool rejects half-way, after which the offending file is removed and a processed co file renamed); the layout also holds a side-effect import, //go:embed and //go:noinline directives (one separated from its declaration, one right behind a generator in a file with a generator literal), a forwarding closure over a re-assigned receiver, and optionally a second package whose co file declares what the first one calls (generated before AND after that package); the //go:generate directive ($GOFILE) stands in a co file, a plain file, a co test file or doc.go. History: snapshot, cogen, snapshot, go build, go build -tags co, go test, cogen, snapshot. Oracle: created paths are exactly the _co-stripped names of API-using co files, each starts with the '!co' constraint and the generated-code header, nothing else created/modified/left (no <dir>_tmp), builds and tests pass, second run byte-identical.",
 		assumptions: []string{"the tool is run the way go:generate runs it (GOFILE set, cwd = package directory)"},
 	},
 	"C08": {
@@ -167,7 +167,7 @@ var registry = map[string]check{
 	"C10": {
 		parts:  []part{{"runtime", layerr.C10, 16, 64}},
 		replay: layerr.ReplayC10, level: "exploration",
-		rule:        "cases = (iterator kind: string/int/slice/slice of any/map/map of any/chan) x input x step script (Current read once or twice after each advance, then mutator/producer steps: element writes ahead/behind the cursor, append, reslice, map overwrite/delete, channel send/close). Strings: all strings up to length 3 (quick) / 4 (thorough) over a 24-symbol alphabet (ASCII, first and last rune of every encoded length, validly encoded U+FFFD, invalid bytes, truncated sequences, a surrogate half, overlong and out-of-range encodings, NUL) are enumerated, plus random longer strings and raw bytes. Oracle: the native range statement over the same value run as a coroutine under the same script; multi-entry maps by the spec-derived invariant (each present key exactly once with its current value, deleted-before-reached never), which is self-checked against native range on every case. Non-trivial = history of >= 4 events; distinct = digest of the case.",
+		rule:        "cases = (iterator kind: string/int/typed integers int8..uint64, uint, uintptr and a named type at the boundaries of their types/slice/slice of any/map/map of any/chan) x input x step script (Current read once or twice after each advance, then mutator/producer steps: element writes ahead/behind the cursor, append, reslice, map overwrite/delete, channel send/close). Strings: all strings up to length 3 (quick) / 4 (thorough) over a 24-symbol alphabet (ASCII, first and last rune of every encoded length, validly encoded U+FFFD, invalid bytes, truncated sequences, a surrogate half, overlong and out-of-range encodings, NUL) are enumerated, plus random longer strings and raw bytes. Oracle: the native range statement over the same value run as a coroutine under the same script; multi-entry maps by the spec-derived invariant (each present key exactly once with its current value, deleted-before-reached never), which is self-checked against native range on every case. Non-trivial = history of >= 4 events; distinct = digest of the case.",
 		assumptions: []string{"Go's range statement is the specification", "strings and ints have no second actor: that part is seeded/enumerated inputs, not interleavings (DESIGN.md 4 C10)"},
 		components:  compR,
 	},
@@ -191,7 +191,7 @@ var registry = map[string]check{
 		env:    []string{"GODEBUG=panicnil=1"},
 		parts:  []part{{"runtime", layerr.C18, 32, 192}, {"compiled", layerc.C18, 16, 128}},
 		replay: replayAny, level: "fault_enumeration",
-		rule:        "for each sampled (terms, consumer ops, thread interleaving) with J generator-side effects in the fault-free run, J further runs arm a panic with a unique value at effect j (every j, capped at 120 quick / 400 thorough per run). Oracle (self-relative): identical history up to effect j, the consumer call that was executing ends in a panic carrying exactly the armed value, no later event of that iterator, all other iterators' projections unchanged; secondary: the reference coroutine's history under the same fault is identical. Non-trivial = the run yields at least once; distinct = digest of (scenario, j).",
+		rule:        "for each sampled (terms, consumer ops, thread interleaving) with J generator-side effects in the fault-free run, J further runs arm a panic with a unique value at effect j (every j, capped at 120 quick / 400 thorough per run); every fourth injected panic carries the NIL value (the check's processes run with GODEBUG=panicnil=1, the default of main modules declaring go <= 1.20). Oracle (self-relative): identical history up to effect j, the consumer call that was executing ends in a panic carrying exactly the armed value, no later event of that iterator, all other iterators' projections unchanged; secondary: the reference coroutine's history under the same fault is identical. Non-trivial = the run yields at least once; distinct = digest of (scenario, j).",
 		assumptions: []string{"effects (vrt.E) mark every statement position a panic can originate from in the workload"},
 		components:  compR,
 	},
